@@ -56,7 +56,9 @@ INVALID = [-1, 256, 1000, -256, (0, 0, 6), (-1, 0, 0), (6, 6, 6), (1, 2), (1, 2,
            # what a configuration FILE uses for 'the terminal's default' is not a colour value of this interface
            "-", " -", "--", "default", "none", "None",
            # names that read like replacement fields of a message template
-           "{}", "{0}", "g{}", "{names}", "RED{x}", "{!r}", "{color}", "%s", "%(color)s", "{", "}"]
+           "{}", "{0}", "g{}", "{names}", "RED{x}", "{!r}", "{color}", "%s", "%(color)s", "{", "}",
+           # bytes are no colour values, whatever they hold (three small bytes are no rgb triple)
+           b"\x01\x02\x03", b"\x00\x00\x00", b"\x05\x00\x04", b"RED", b"g5", b"\x07"]
 
 
 class VfCode(int):
